@@ -7,6 +7,13 @@ params:
             "refs":   histories of finished jobs (ok | fail | cancel_queued | cancel_inflight | cancel_between),
                       then the user drops everything belonging to them and weak references are examined
   action    drop | exit | shutdown
+            "keep":   histories of finished jobs whose futures the user KEEPS, then the executor (and its delegate) is
+                      dropped without shutdown: a done future must not keep the executor - and so its worker thread -
+                      alive
+            "exitrace": one executor is dropped (its worker exits and its shutdown-aware event is reclaimed, which
+                      rebuilds the registry of such events from a weakref callback) while another thread creates a
+                      second executor (which registers its event); then the interpreter-exit hook fires: the second
+                      executor's worker must still be woken and exit
   pending   bool: a job is still running when the action happens (drop only: it must still complete)
   hist      list of history items for mode "refs"
 """
@@ -150,4 +157,61 @@ def build(p):
         ex.shutdown(wait=True)
         E.emit("End")
 
-    return (main_thread_mode if mode == "thread" else main_refs_mode), {"horizon": 10 ** 7, "max_steps": 60000}
+    def main_keep_mode():
+        hist = p.get("hist", ["ok"])
+        plan = {"_noretain": True}
+        for i, h in enumerate(hist, start=1):
+            plan[i] = {"dur": 60, "cancellable": True}
+        box = [ManualExecutor(plan, tag="tap")]
+        box.append(make(kind, box[0], None))
+        kept = []
+        for i, h in enumerate(hist, start=1):
+            fn = Fn("fail" if h == "fail" else "retryable" if h == "cancel_between" else "ok", [])
+            fn.sub = i
+            fut = box[1].submit(fn, Obj("arg"))
+            if h == "cancel_queued":
+                fut.cancel()
+            elif h == "cancel_inflight":
+                E.vsleep(10)
+                fut.cancel()
+            elif h == "cancel_between":
+                E.vsleep(150)
+                fut.cancel()
+            E.vsleep(400)
+            E.emit("Observed", f=i, s=fut._state)
+            kept.append(fut)
+            del fut, fn
+        E.emit("Action", s="drop")
+        del box[:]
+        gc.collect()
+        E.vsleep(20000)
+        E.emit("Kept", a=len(kept))
+        E.emit("End")
+
+    def main_exitrace_mode():
+        plan = {"_noretain": True}
+        box1 = [make(kind, ManualExecutor(plan, tag="tap"), None)]
+        created = []
+
+        def dropper():
+            E.vsleep(100)
+            E.emit("Action", s="drop")
+            del box1[:]
+            gc.collect()
+
+        def creator():
+            E.vsleep(100)
+            created.append(make(p.get("kind2", kind), ManualExecutor(plan, tag="tap"), None))
+
+        E.spawn("dropper", dropper)
+        E.spawn("creator", creator)
+        E.vsleep(1000)
+        E.emit("Action", s="exit")
+        from more_executors._impl.event import GLOBAL_HANDLER
+        GLOBAL_HANDLER.on_exiting()
+        E.vsleep(20000)
+        E.emit("Kept", a=len(created))
+        E.emit("End")
+
+    mains = {"thread": main_thread_mode, "refs": main_refs_mode, "keep": main_keep_mode, "exitrace": main_exitrace_mode}
+    return mains[mode], {"horizon": 10 ** 7, "max_steps": 60000}
